@@ -337,7 +337,7 @@ impl<'a> CompilerState<'a> {
         let varname = px.as_str();
         let subscript = match p.next() {
             Some(pair) => {
-                let expr = self.parse_expr_ex(pair.into_inner())?;
+                let expr = self.parse_expr_ex(pair.into_inner(), self.literal_counter)?;
                 Box::new(expr.0)
             }
             None => Box::new(Expr::Nothing),
@@ -391,7 +391,7 @@ impl<'a> CompilerState<'a> {
     }
 
     fn parse_expr(&mut self, pairs: Pairs<'a, Rule>) -> Result<Expr, Error> {
-        let res = self.parse_expr_ex(pairs)?;
+        let res = self.parse_expr_ex(pairs, self.literal_counter)?;
 
         // Create collected literal variables in memory
         self.literal_counter += res.1.len();
@@ -428,11 +428,13 @@ impl<'a> CompilerState<'a> {
         Ok(res.0)
     }
 
+    // The literals found are named cctmp<first_literal>, cctmp<first_literal + 1>, ...
     fn parse_expr_ex(
         &self,
         pairs: Pairs<'a, Rule>,
+        first_literal: usize,
     ) -> Result<(Expr, HashMap<String, String>), Error> {
-        let literal_counter = Rc::new(Mutex::new(self.literal_counter));
+        let literal_counter = Rc::new(Mutex::new(first_literal));
         let literal_strings = Rc::new(Mutex::new(HashMap::<String, String>::new()));
         if pairs.len() == 0 {
             let lit_strs = Rc::into_inner(literal_strings)
@@ -450,7 +452,8 @@ impl<'a> CompilerState<'a> {
                         primary.into_inner().next().unwrap(),
                     )?)),
                     Rule::expr => {
-                        let res = self.parse_expr_ex(primary.into_inner())?;
+                        let next_literal = *literal_counter.lock().unwrap();
+                        let res = self.parse_expr_ex(primary.into_inner(), next_literal)?;
                         let mut lit_strs = literal_strings.lock().unwrap();
                         for k in &res.1 {
                             lit_strs.insert(k.0.clone(), k.1.clone());
@@ -533,7 +536,8 @@ impl<'a> CompilerState<'a> {
                 Rule::pp => Ok(Expr::PlusPlus(Box::new(lhs?), true)),
                 Rule::call => {
                     let params = if let Some(x) = op.into_inner().next() {
-                        let res = self.parse_expr_ex(x.into_inner())?;
+                        let next_literal = *literal_counter.lock().unwrap();
+                        let res = self.parse_expr_ex(x.into_inner(), next_literal)?;
                         let mut lit_strs = literal_strings.lock().unwrap();
                         for k in &res.1 {
                             lit_strs.insert(k.0.clone(), k.1.clone());
@@ -560,7 +564,7 @@ impl<'a> CompilerState<'a> {
     }
 
     fn parse_expr_init_value(&mut self, pairs: Pairs<'a, Rule>) -> Result<Expr, Error> {
-        let res = self.parse_expr_init_value_ex(pairs)?;
+        let res = self.parse_expr_init_value_ex(pairs, self.literal_counter)?;
 
         // Create collected literal variables in memory
         self.literal_counter += res.1.len();
@@ -600,8 +604,9 @@ impl<'a> CompilerState<'a> {
     fn parse_expr_init_value_ex(
         &self,
         pairs: Pairs<'a, Rule>,
+        first_literal: usize,
     ) -> Result<(Expr, HashMap<String, String>), Error> {
-        let literal_counter = Rc::new(Mutex::new(self.literal_counter));
+        let literal_counter = Rc::new(Mutex::new(first_literal));
         let literal_strings = Rc::new(Mutex::new(HashMap::<String, String>::new()));
         let res = self
             .pratt_init_value
@@ -612,7 +617,8 @@ impl<'a> CompilerState<'a> {
                         primary.into_inner().next().unwrap(),
                     )?)),
                     Rule::expr => {
-                        let res = self.parse_expr_ex(primary.into_inner())?;
+                        let next_literal = *literal_counter.lock().unwrap();
+                        let res = self.parse_expr_ex(primary.into_inner(), next_literal)?;
                         let mut lit_strs = literal_strings.lock().unwrap();
                         for k in &res.1 {
                             lit_strs.insert(k.0.clone(), k.1.clone());
@@ -694,7 +700,8 @@ impl<'a> CompilerState<'a> {
                 Rule::pp => Ok(Expr::PlusPlus(Box::new(lhs?), true)),
                 Rule::call => {
                     let params = if let Some(x) = op.into_inner().next() {
-                        let res = self.parse_expr_ex(x.into_inner())?;
+                        let next_literal = *literal_counter.lock().unwrap();
+                        let res = self.parse_expr_ex(x.into_inner(), next_literal)?;
                         let mut lit_strs = literal_strings.lock().unwrap();
                         for k in &res.1 {
                             lit_strs.insert(k.0.clone(), k.1.clone());
